@@ -3,12 +3,12 @@ import PV.Expr.Syntax
   C11 — the fragment for which the round trip `parseRef (unparse e) = e` is PROVED
   (`PV.C11.parse_unparse_partial`): the operator core of the expression language.
 
-    Name, numeric / `None` / `True` / `False` / `...` constants,
+    Name, every constant (numbers, strings, bytes, `None`, `True`, `False`, `...`), Attribute,
     BoolOp (n ≥ 2 operands), UnaryOp (all four), BinOp (all thirteen), Compare (n ≥ 1 comparisons),
     IfExp — nested arbitrarily.
 
-  Everything else (lambda, displays, comprehensions, calls, attribute / subscript / slices, starred,
-  named expressions, await / yield, string, bytes and f-string literals) is outside `InFragment`;
+  Everything else (lambda, displays, comprehensions, calls, subscript / slices, starred,
+  named expressions, await / yield, f-string literals) is outside `InFragment`;
   for those the statement `parse_unparse_full` is only checked by correspondence.
 -/
 namespace PV.Expr
@@ -16,9 +16,8 @@ namespace PV.Expr
 mutual
 def inFrag : Expr → Bool
   | .name _ => true
-  | .const (.str _ _) => false
-  | .const (.bytes _) => false
   | .const _ => true
+  | .attribute v _ => inFrag v
   | .boolOp _ vs => decide (2 ≤ vs.length) && inFragList vs
   | .unaryOp _ e => inFrag e
   | .binOp l _ r => inFrag l && inFrag r
